@@ -225,11 +225,12 @@ func (o *optimizer) etaReduction() {
 	// between the creation of the closure and its call, and
 	// builtins / conversions are not function values at all
 	stableCallee := func(ctx astmatcher.Ctx, fun ast.Expr) bool {
+		targs := 0
 		switch x := fun.(type) {
 		case *ast.IndexExpr:
-			fun = x.X
+			fun, targs = x.X, 1
 		case *ast.IndexListExpr:
-			fun = x.X
+			fun, targs = x.X, len(x.Indices)
 		}
 		var id *ast.Ident
 		switch x := fun.(type) {
@@ -249,7 +250,23 @@ func (o *optimizer) etaReduction() {
 			return false
 		}
 		fn, ok := ctx.ObjectOf(id).(*types.Func)
-		return ok && fn.Type().(*types.Signature).Recv() == nil
+		if !ok {
+			return false
+		}
+		sig := fn.Type().(*types.Signature)
+		// a generic function is a value only when fully and explicitly instantiated
+		return sig.Recv() == nil && sig.TypeParams().Len() == targs
+	}
+
+	// the closure may convert the result (e.g. *T to error), be variadic where the callee
+	// takes a slice, ...: the callee replaces it only when both have the same type
+	sameType := func(ctx astmatcher.Ctx, lit ast.Node, fun ast.Expr) bool {
+		l, ok := lit.(*ast.FuncLit)
+		if !ok {
+			return false
+		}
+		lt, ft := ctx.TypeOf(l), ctx.TypeOf(fun)
+		return lt != nil && ft != nil && types.Identical(lt, ft)
 	}
 
 	// assume type-checked
@@ -268,6 +285,9 @@ func (o *optimizer) etaReduction() {
 
 		var params []*ast.Ident
 		for _, paramGroup := range paramsFields {
+			if len(paramGroup.Names) == 0 {
+				return false // unnamed parameter: nothing is passed on
+			}
 			for _, param := range paramGroup.Names {
 				params = append(params, param)
 			}
@@ -295,7 +315,8 @@ func (o *optimizer) etaReduction() {
 		func(c *astmatcher.Cursor, ctx astmatcher.Ctx) {
 			params := ctx.Binds["params"].(*ast.FieldList).List
 			args := ctx.Binds["args"].(ExprsNode)
-			if matched(ctx, params, args) && stableCallee(ctx, ctx.Binds["fun"].(ast.Expr)) {
+			fun := ctx.Binds["fun"].(ast.Expr)
+			if matched(ctx, params, args) && stableCallee(ctx, fun) && sameType(ctx, c.Node(), fun) {
 				c.Replace(ctx.Binds["fun"])
 			}
 		},
